@@ -42,7 +42,14 @@ import (
 // mode, POST /_bulk. conc=1: the n requests run in n goroutines on one plugin instance with a
 // barrier at their first read and one at their terminal read, so that all of them are inside
 // processBulk (holding a source id and pooled buffers) at the same time; conc=0: one after the
-// other on one fresh instance (pooled buffers and the source id are reused).
+// other on one fresh instance (pooled buffers and the source id are reused). conc=2 (scheduled):
+// the case ends with `<nsched> <req>…`; the n requests run in n goroutines but only one at a time:
+// every body Read and every controller.In is a park point, step k of the schedule resumes request
+// <req> until its next park point (or its end); when the schedule is used up the requests are
+// finished one after the other in index order. GOMAXPROCS is 1 for the duration of such a case, so
+// that sync.Pool behaves as on one P (what request A puts back is what request B gets): request A
+// parked in the middle of its body while B opens, reads and finishes is then a fixed history, not
+// a matter of timing.
 //
 // For a gzip request the case line also carries the oracle parameter: what the gzip reader
 // (the library the plugin uses) returns on that transport stream when read the way
@@ -108,6 +115,7 @@ type c11Body struct {
 	started  bool
 	ended    bool
 	yield    bool
+	onRead   func() // scheduled mode: park before every Read
 }
 
 func (b *c11Body) Read(p []byte) (int, error) {
@@ -119,6 +127,9 @@ func (b *c11Body) Read(p []byte) (int, error) {
 	}
 	if b.yield {
 		runtime.Gosched()
+	}
+	if b.onRead != nil {
+		b.onRead()
 	}
 	if b.pos >= len(b.rds) {
 		b.term()
@@ -205,6 +216,8 @@ type c11Act struct {
 type c11ReqLog struct {
 	acts []c11Act
 	sids []pipeline.SourceID
+	seqs []int  // position of each In call in the order of all In calls of the case
+	park func() // scheduled mode: give the turn back and wait to be resumed
 }
 
 // c11Ctl is the fake pipeline.InputPluginController: In calls are attributed to the request
@@ -216,16 +229,17 @@ type c11Ctl struct {
 	// diagnostics only (VERIF_DEBUG): how often consecutive In calls came from different requests
 	last     *c11ReqLog
 	switches int
+	nIn      int
 }
 
 func (c *c11Ctl) In(sid pipeline.SourceID, _ string, _ pipeline.Offsets, data []byte, _ bool, _ metadata.MetaData) uint64 {
 	g := c11Gid()
 	cp := append([]byte(nil), data...) // the plugin reuses the backing buffers
 	c.mu.Lock()
-	defer c.mu.Unlock()
 	l := c.byGid[g]
 	if l == nil {
 		c.stray++
+		c.mu.Unlock()
 		return 0
 	}
 	if c.last != nil && c.last != l {
@@ -234,8 +248,26 @@ func (c *c11Ctl) In(sid pipeline.SourceID, _ string, _ pipeline.Offsets, data []
 	c.last = l
 	l.acts = append(l.acts, c11Act{in: true, data: cp})
 	l.sids = append(l.sids, sid)
-	return uint64(len(l.acts))
+	l.seqs = append(l.seqs, c.nIn)
+	c.nIn++
+	n := uint64(len(l.acts))
+	c.mu.Unlock()
+	if l.park != nil {
+		l.park() // the payload is copied: whatever happens to the plugin's buffers now is not ours
+	}
+	return n
 }
+// parkCurrent parks the request on whose goroutine it is called (scheduled mode).
+func (c *c11Ctl) parkCurrent() {
+	g := c11Gid()
+	c.mu.Lock()
+	l := c.byGid[g]
+	c.mu.Unlock()
+	if l != nil && l.park != nil {
+		l.park()
+	}
+}
+
 func (c *c11Ctl) UseSpread()                          {}
 func (c *c11Ctl) DisableStreams()                     {}
 func (c *c11Ctl) SuggestDecoder(_ decoder.Type)       {}
@@ -333,11 +365,65 @@ func (b *c11Barrier) arrive(i int, wait bool) {
 	}
 }
 
+// c11RunScheduled runs the requests as coroutines: exactly one of them (or the scheduler) runs at
+// any time; a request gives its turn back at every park point and at its end.
+func c11RunScheduled(n int, sched []int, logs []*c11ReqLog, serve func(i int, first, terminal func())) (panicked string) {
+	prev := runtime.GOMAXPROCS(1)
+	defer runtime.GOMAXPROCS(prev)
+	type note struct {
+		req  int
+		done bool
+	}
+	resume := make([]chan struct{}, n)
+	back := make(chan note)
+	done := make([]bool, n)
+	for i := 0; i < n; i++ {
+		i := i
+		resume[i] = make(chan struct{})
+		logs[i].park = func() {
+			back <- note{i, false}
+			<-resume[i]
+		}
+	}
+	for i := 0; i < n; i++ {
+		go func(i int) {
+			<-resume[i]
+			defer func() {
+				if r := recover(); r != nil {
+					panicked = "panic:" + panicKind(r) // only one coroutine runs at a time
+				}
+				back <- note{i, true}
+			}()
+			serve(i, nil, nil)
+		}(i)
+	}
+	turn := func(i int) {
+		if done[i] {
+			return
+		}
+		resume[i] <- struct{}{}
+		nt := <-back
+		if nt.done {
+			done[nt.req] = true
+		}
+	}
+	for _, i := range sched {
+		turn(i)
+	}
+	for i := 0; i < n; i++ {
+		for !done[i] {
+			turn(i)
+		}
+	}
+	return panicked
+}
+
 func execC11(t *hx.Toks) string {
 	es := t.Bool()
-	conc := t.Bool()
+	mode := t.Int()
+	conc := mode == 1
 	n := t.Int()
-	if t.Err != nil || n < 0 || n > 64 {
+	if t.Err != nil || n < 0 || n > 64 || mode < 0 || mode > 2 {
 		return "bad-case"
 	}
 	reqs := make([]c11Req, n)
@@ -372,6 +458,20 @@ func execC11(t *hx.Toks) string {
 			}
 		}
 	}
+	var sched []int
+	if mode == 2 {
+		k := t.Int()
+		if t.Err != nil || k < 0 || k > 1<<22 {
+			return "bad-case"
+		}
+		for j := 0; j < k; j++ {
+			r := t.Int()
+			if t.Err != nil || r < 0 || r >= n {
+				return "bad-case"
+			}
+			sched = append(sched, r)
+		}
+	}
 	if t.Err != nil || !t.Done() {
 		return "bad-case"
 	}
@@ -392,6 +492,10 @@ func execC11(t *hx.Toks) string {
 	}
 	serve := func(i int, first, terminal func()) {
 		body := &c11Body{rds: reqs[i].trans, first: first, terminal: terminal, yield: conc}
+		if mode == 2 {
+			// park the request that is running, whoever's body it reads
+			body.onRead = ctl.parkCurrent
+		}
 		bodies[i] = body
 		r := httptest.NewRequest(http.MethodPost, path, body)
 		if reqs[i].gz {
@@ -412,7 +516,9 @@ func execC11(t *hx.Toks) string {
 		w.WriteHeader(http.StatusOK)
 	}
 	panicked := ""
-	if !conc {
+	if mode == 2 {
+		panicked = c11RunScheduled(n, sched, logs, serve)
+	} else if !conc {
 		for i := 0; i < n; i++ {
 			serve(i, nil, nil)
 		}
@@ -480,6 +586,23 @@ func execC11(t *hx.Toks) string {
 	if n > 0 {
 		sb.WriteByte(' ')
 	}
+	if mode == 2 {
+		// two requests whose In calls interleave were in flight together: they must not share an id
+		excl := 1
+		for i := range logs {
+			for j := i + 1; j < len(logs); j++ {
+				a, b := logs[i], logs[j]
+				if len(a.seqs) == 0 || len(b.seqs) == 0 || a.sids[0] != b.sids[0] {
+					continue
+				}
+				if a.seqs[0] < b.seqs[len(b.seqs)-1] && b.seqs[0] < a.seqs[len(a.seqs)-1] {
+					excl = 0
+				}
+			}
+		}
+		fmt.Fprintf(&sb, "sids %s %d", hx.B(sidConst), excl)
+		return sb.String()
+	}
 	fmt.Fprintf(&sb, "sids %s %d", hx.B(sidConst), len(distinct))
 	if !conc {
 		ids := make([]int, 0, len(distinct))
@@ -497,7 +620,15 @@ func execC11(t *hx.Toks) string {
 // ---------------------------------------------------------------- generator
 
 func c11Line(w *bufio.Writer, es, conc bool, reqs []c11Req) {
-	fmt.Fprintf(w, "c11.reqs %s %s %d", hx.B(es), hx.B(conc), len(reqs))
+	mode := 0
+	if conc {
+		mode = 1
+	}
+	c11LineMode(w, es, mode, reqs, nil)
+}
+
+func c11LineMode(w *bufio.Writer, es bool, mode int, reqs []c11Req, sched []int) {
+	fmt.Fprintf(w, "c11.reqs %s %d %d", hx.B(es), mode, len(reqs))
 	for _, q := range reqs {
 		fmt.Fprintf(w, " %s %d", hx.B(q.gz), len(q.trans))
 		for _, r := range q.trans {
@@ -508,6 +639,12 @@ func c11Line(w *bufio.Writer, es, conc bool, reqs []c11Req) {
 			for _, r := range q.dec {
 				w.WriteString(" " + r.tok())
 			}
+		}
+	}
+	if mode == 2 {
+		fmt.Fprintf(w, " %d", len(sched))
+		for _, i := range sched {
+			fmt.Fprintf(w, " %d", i)
 		}
 	}
 	w.WriteByte('\n')
@@ -706,10 +843,99 @@ func c11RandReq(rng *hx.Rng, alpha []byte, big bool) c11Req {
 	}
 }
 
+// c11SchedReq: a request for the scheduled family: a body of many lines (so that there are many
+// park points inside it), sometimes larger than the 16 KiB read buffer / the gzip reader's window,
+// gzip with probability 3/4.
+func c11SchedReq(rng *hx.Rng, alpha []byte, forceGz bool) c11Req {
+	var body []byte
+	nl := rng.Range(3, 30)
+	lineMax := []int{3, 12, 60, 400, 2500}[rng.Intn(5)] // 30 x 2500 = 75 KB: several read buffers
+	for i := 0; i < nl; i++ {
+		body = append(body, rng.Bytes(rng.Range(0, lineMax), alpha)...)
+		if rng.Chance(1, 8) {
+			body = append(body, '\r')
+		}
+		body = append(body, '\n')
+	}
+	if rng.Chance(1, 3) {
+		body = append(body, rng.Bytes(rng.Range(1, 20), alpha)...)
+	}
+	maxc := []int{64, 512, 4096, c11ReadBuf}[rng.Intn(4)]
+	if forceGz || rng.Chance(3, 4) {
+		levels := []int{stdgzip.NoCompression, stdgzip.BestSpeed, stdgzip.DefaultCompression, stdgzip.HuffmanOnly}
+		z := c11Compress(body, levels[rng.Intn(len(levels))])
+		if rng.Chance(1, 15) {
+			z = z[:rng.Range(0, len(z)-1)]
+		}
+		var trans []c11Rd
+		for _, c := range c11RandChunks(rng, z, []int{0, 3}[rng.Intn(2)], maxc) {
+			trans = append(trans, c11Rd{'d', c})
+		}
+		return c11Gz(trans)
+	}
+	return c11Plain(c11RandChunks(rng, body, []int{0, 2, 3}[rng.Intn(3)], maxc))
+}
+
+// c11ParkPoints: how many park points (body reads + In calls) a request has at most, for sizing
+// schedules; an estimate is enough (a finished request's turns are skipped).
+func c11ParkPoints(q c11Req) int {
+	n := len(q.trans) + 2
+	reads := q.trans
+	if q.gz {
+		reads = q.dec
+	}
+	for _, r := range reads {
+		n += bytes.Count(r.b, []byte{'\n'})
+	}
+	return n + 1
+}
+
+// c11Schedule: "A for a while, then B for a while, …" (request A parked after k lines while B
+// opens, reads, parks or finishes, then A again), strict alternation, or a random walk.
+func c11Schedule(rng *hx.Rng, reqs []c11Req) []int {
+	var sched []int
+	n := len(reqs)
+	switch rng.Intn(4) {
+	case 0, 1: // blocks
+		rounds := rng.Range(1, 4)
+		for r := 0; r < rounds; r++ {
+			for i := 0; i < n; i++ {
+				k := rng.Range(1, c11ParkPoints(reqs[i]))
+				if rng.Chance(1, 3) {
+					k = rng.Range(1, 12)
+				}
+				for j := 0; j < k; j++ {
+					sched = append(sched, i)
+				}
+			}
+		}
+	case 2: // alternation
+		tot := 0
+		for _, q := range reqs {
+			tot += c11ParkPoints(q)
+		}
+		for j := 0; j < tot; j++ {
+			sched = append(sched, j%n)
+		}
+	default: // random walk with runs
+		tot := 0
+		for _, q := range reqs {
+			tot += c11ParkPoints(q)
+		}
+		for len(sched) < tot {
+			i := rng.Intn(n)
+			for k := rng.Range(1, 6); k > 0; k-- {
+				sched = append(sched, i)
+			}
+		}
+	}
+	return sched
+}
+
 func genC11(w *bufio.Writer, rng *hx.Rng, tier string) {
-	maxLen, nrand, nbig, nseq, nconc := 6, 2000, 150, 300, 150
+	maxLen, nrand, nbig, nseq, nconc, nsched := 6, 2000, 150, 300, 150, 400
 	if tier == "thorough" {
-		maxLen, nrand, nbig, nseq, nconc = 8, 40000, 3000, 6000, 3000
+		maxLen, nrand, nbig, nseq, nconc, nsched = 8, 40000, 3000, 6000, 3000, 8000
 	}
 	// 1. exhaustive: every body over {a, \n, \r} up to maxLen x every chunking into non-empty
 	// reads; the two endpoints alternate
@@ -790,5 +1016,21 @@ func genC11(w *bufio.Writer, rng *hx.Rng, tier string) {
 			reqs[j] = c11RandReq(rng, c11Alphabets[j], rng.Chance(1, 12))
 		}
 		c11Line(w, rng.Chance(1, 4), true, reqs)
+	}
+	// 6. scheduled overlap: 2-4 requests (at least two of them gzip in 3 of 4 cases) advanced park
+	// point by park point in a fixed order on one P: one request is in the middle of its body (its
+	// carry-over non-empty, its pooled buffers and gzip reader in use) while another opens its
+	// reader, reads and finishes
+	for i := 0; i < nsched; i++ {
+		k := rng.Range(2, 4)
+		reqs := make([]c11Req, k)
+		ngz := 0
+		if rng.Chance(3, 4) {
+			ngz = 2
+		}
+		for j := range reqs {
+			reqs[j] = c11SchedReq(rng, c11Alphabets[j], j < ngz)
+		}
+		c11LineMode(w, rng.Chance(1, 4), 2, reqs, c11Schedule(rng, reqs))
 	}
 }
